@@ -282,7 +282,7 @@ def _ancestors(x, root):
     return out
 
 
-def rule_clock_forwarded(ctx, floor=3):
+def rule_clock_forwarded(ctx, floor=2):
     """CLOCK-fwd: a performed part's ticks are meaningful only with its own ppq and mpq."""
     rule = "CLOCK-fwd"
     ctx.rule(rule, "every function that builds a PerformedPart while it has a clock at hand (it reads a ppq or mpq name / attribute) "
@@ -293,9 +293,13 @@ def rule_clock_forwarded(ctx, floor=3):
         ctors = [c for c in own_nodes(f.node) if isinstance(c, ast.Call) and norm(c.func).split(".")[-1] == "PerformedPart"]
         if not ctors:
             continue
-        clock = {x.id for x in own_nodes(f.node) if isinstance(x, ast.Name) and x.id in ("ppq", "mpq")} | \
-                {x.attr for x in own_nodes(f.node) if isinstance(x, ast.Attribute) and x.attr in ("ppq", "mpq")} | \
-                {a for a in f.all_params if a in ("ppq", "mpq")}
+        # API names only (attributes, parameters, keywords of other calls): local names are free to change
+        clock = {x.attr for x in own_nodes(f.node) if isinstance(x, ast.Attribute) and x.attr in ("ppq", "mpq")} | \
+                {a for a in f.all_params if a in ("ppq", "mpq")} | \
+                {k.arg for c in own_nodes(f.node) if isinstance(c, ast.Call) and c not in ctors for k in c.keywords if k.arg in ("ppq", "mpq")} | \
+                {x.slice.value for x in own_nodes(f.node) if isinstance(x, ast.Subscript) and isinstance(x.slice, ast.Constant) and x.slice.value in ("ppq", "mpq")} | \
+                {"clock" for c in own_nodes(f.node) if isinstance(c, ast.Call) and norm(c.func).split(".")[-1] in ("midi_ticks_to_seconds", "seconds_to_midi_ticks")} | \
+                {k.arg for c in ctors for k in c.keywords if k.arg in ("ppq", "mpq")}
         if not clock:
             continue
         for c in ctors:
@@ -393,6 +397,15 @@ def rule_statement_order_siblings(ctx, q="partitura.io.importkern:element_parsin
     from ..core.program import pos
     f = ctx.prog.func(q, rule)
     ctx.touch(f)
+    # by role (local names are free to change): the cursor is the name passed as `start=` where an element is added to the part;
+    # the table is whatever is item-assigned the cursor
+    cursors = {norm(k.value) for c in own_nodes(f.node) if isinstance(c, ast.Call) and isinstance(c.func, ast.Attribute) and c.func.attr == "add"
+               for k in c.keywords if k.arg == "start" and isinstance(k.value, ast.Name)}
+    stored = {norm(s.value) for s in own_nodes(f.node) if isinstance(s, ast.Assign) and len(s.targets) == 1 and isinstance(s.targets[0], ast.Subscript)
+              and isinstance(s.targets[0].value, ast.Name) and isinstance(s.value, ast.Name)}
+    cursors &= stored
+    ctx.require(len(cursors) == 1, rule, q, f"time-line cursor (passed as `start=` to <part>.add and recorded in the line table) not identified: {sorted(cursors)}")
+    cursor = cursors.pop()
     n = 0
     for blk in ast.walk(f.node):
         for fld in ("body", "orelse"):
@@ -400,12 +413,13 @@ def rule_statement_order_siblings(ctx, q="partitura.io.importkern:element_parsin
             if not isinstance(b, list):
                 continue
             stores = [s for s in b if isinstance(s, ast.Assign) and len(s.targets) == 1 and isinstance(s.targets[0], ast.Subscript)
-                      and norm(s.targets[0].value) == table and norm(s.value) == cursor]
+                      and isinstance(s.targets[0].value, ast.Name) and norm(s.value) == cursor]
             moves = [s for s in b if isinstance(s, ast.Assign) and len(s.targets) == 1 and norm(s.targets[0]) == cursor]
             if stores and moves:
                 n += 1
+                table = norm(stores[0].targets[0].value)
                 ok = all(pos(st) < pos(mv) for st in stores for mv in moves)
-                ctx.check(ok, rule, f"{q}:line {stores[0].lineno}", func=f, node=stores[0], construct=f"recorded-after-advance:{table}",
+                ctx.check(ok, rule, f"{q}:line {stores[0].lineno}", func=f, node=stores[0], construct="recorded-after-advance",
                           msg=f"`{norm(stores[0])}` runs after `{norm(moves[0])[:40]}`: the line is recorded at the position where its element "
                               f"ends, so tokens of later spines on the same line are placed one duration too late")
     ctx.floor(rule, "blocks that record and advance", n, floor)
@@ -522,7 +536,8 @@ def rule_label_selects_matches(ctx, q="partitura.musicanalysis.performance_codec
     for a in apps:
         import re as _re
         texts = sorted(_path_conditions(a, f.node))
-        ok = any(_re.fullmatch(r"""[\w.]+\[['"]label['"]\] == ['"]match['"]""", t) for t in texts)
+        ok = any(_re.fullmatch(r"""[\w.]+\[['"]label['"]\] == ['"]match['"]""", t) or
+                 _re.fullmatch(r"""not \([\w.]+\[['"]label['"]\] != ['"]match['"]\)""", t) for t in texts)
         ctx.check(ok, rule, f"{q}:pairing", func=f, node=a, construct="pairing-not-under-label-match",
                   msg=f"`{norm(a)[:50]}` is reached under {texts[:3]} — not under `['label'] == 'match'`: entries with another label "
                       f"(ornament) are paired as matches and both time maps get points that are not matched onsets")
